@@ -11,6 +11,7 @@ from struct import pack
 from struct import unpack
 from typing import ClassVar
 
+from exabgp.bgp.message.notification import Notify
 from exabgp.bgp.message.update.attribute.sr.prefixsid import PrefixSid
 from exabgp.util.types import Buffer
 
@@ -82,7 +83,10 @@ class SrGb:
 
     @classmethod
     def unpack_attribute(cls, data: Buffer, length: int) -> SrGb:
-        # Validation happens in __init__
+        # the size is the peer's: refuse it as the Label-Index TLV does, the ValueError of
+        # __init__ (meant for our own construction) left the decoder untyped
+        if len(data) < 2 or (len(data) - 2) % 6 != 0:
+            raise Notify(3, 5, f'Invalid Originator SRGB TLV size {len(data)}, should be 2 + N*6')
         return cls(data)
 
     def json(self, compact: bool | None = None) -> str:
